@@ -283,7 +283,24 @@ class Interp:
                     return any(has_binding(v) for v in p)
                 return False
             if has_binding(pat):
-                raise Unsupported("or-pattern with bindings")
+                # each alternative binds the same names: the bound value is the alternative's, selected by its own test
+                envs = []
+                for q in pat["pats"]:
+                    r = self.test(q, t)
+                    if r is False:
+                        continue
+                    e2 = {}
+                    self.bind(q, t, e2)
+                    envs.append((r, e2))
+                lids = set()
+                for _r, e2 in envs:
+                    lids |= set(e2)
+                for lid in lids:
+                    alts = tuple((r, e2[lid]) for r, e2 in envs if lid in e2)
+                    if len(alts) == 1 or all(a[1] == alts[0][1] for a in alts):
+                        env[lid] = alts[0][1]
+                    else:
+                        env[lid] = ("phi", alts)
         else:
             raise Unsupported(f"pattern {k}")
 
@@ -1335,3 +1352,87 @@ def value_points(events, final_val, conds=(), loops=()):
         for c2, v in split_phis(final_val, cs):
             out.append((c2, v, tuple(loops)))
     return out
+
+
+# ---------------------------------------------------------------------------- finite valuation of conditions
+
+class Undetermined(Exception):
+    pass
+
+
+def eval_bool(t, oracle):
+    """truth value of a condition term under `oracle(leaf term) -> bool | None` (None = not a leaf it knows);
+    understands not / ! / and / or / && / || / else / phi / constants / Option::map_or over a known-or-unknown Option"""
+    if t is True:
+        return True
+    if not isinstance(t, tuple) or not t:
+        raise Undetermined(repr(t))
+    r = oracle(t)
+    if r is not None:
+        return r
+    k = t[0]
+    if k == "c" and isinstance(t[1], bool):
+        return t[1]
+    if k == "not":
+        return not eval_bool(t[1], oracle)
+    if k == "un" and t[1] == "!":
+        return not eval_bool(t[2], oracle)
+    if k == "and":
+        return all(eval_bool(x, oracle) for x in t[1])
+    if k == "or":
+        return any(eval_bool(x, oracle) for x in t[1])
+    if k == "else":
+        return not any(eval_bool(x, oracle) for x in t[1])
+    if k == "op" and t[1] in ("||", "&&"):
+        a = eval_bool(t[2], oracle)
+        if t[1] == "||":
+            return a or eval_bool(t[3], oracle)
+        return a and eval_bool(t[3], oracle)
+    if k == "op" and t[1] in ("==", "!=") and t[3][0] == "c" and isinstance(t[3][1], bool):
+        a = eval_bool(t[2], oracle)
+        return (a == t[3][1]) if t[1] == "==" else (a != t[3][1])
+    if k == "phi":
+        for cond, x in t[1]:
+            if eval_bool(cond, oracle):
+                return eval_bool(x, oracle)
+        raise Undetermined("phi without a true alternative")
+    if k == "app" and t[1].endswith("::map_or") and len(t[2]) == 3:
+        recv, dflt, f = t[2]
+        if eval_bool(("is", recv, SOME), oracle):
+            if f[0] == "fnref":
+                return eval_bool(("app", f[1], (payload(recv, SOME, 0),)), oracle)
+            raise Undetermined("map_or with a non-function-item closure")
+        return eval_bool(dflt, oracle)
+    if k == "app" and t[1].endswith(("::is_some_and",)) and len(t[2]) == 2:
+        recv, f = t[2]
+        if eval_bool(("is", recv, SOME), oracle):
+            if f[0] == "fnref":
+                return eval_bool(("app", f[1], (payload(recv, SOME, 0),)), oracle)
+            raise Undetermined("is_some_and with a closure")
+        return False
+    if k == "is" and t[2] == NONE:
+        return not eval_bool(("is", t[1], SOME), oracle)
+    raise Undetermined(term_str(t, 4))
+
+
+def taken_path(events, oracle, val=None):
+    """flat list of the non-alt events executed under the oracle (alternatives chosen by eval_bool), the exit taken
+    (kind, value) if any, and the resolved value"""
+    out = []
+
+    def walk(evs):
+        for e in evs:
+            if e[0] != "alt":
+                out.append(e)
+                continue
+            for alt in e[1]:
+                if eval_bool(alt[0], oracle):
+                    x = walk(alt[1])
+                    if x is not None:
+                        return x
+                    if alt[2] is not None:
+                        return (alt[2], alt[3] if len(alt) > 3 else None)
+                    break
+        return None
+    ex = walk(events)
+    return out, ex
